@@ -43,7 +43,10 @@ func runC16(c0 *Ctx) {
 		res := c.lockResults()
 		var fns []*ssa.Function
 		for _, fn := range c.lruMethods() {
-			fns = append(fns, fn)
+			// function literals run inside the method (callbacks handed to
+			// Option.WhenSome etc.) are analysed with the lockset of their
+			// creation site
+			fns = append(fns, ir.WithClosures(fn)...)
 			_ = res
 		}
 		entry := map[string]map[lockKey]string{}
